@@ -33,30 +33,29 @@ Definition disp (u : unit) : string := unit_display_str u.
 Definition convertible (u v : unit) : bool :=
   match unit_scale_to u v with Some _ => true | None => false end.
 
-(* the pairs recorded as known finding F15 *)
-Definition known_pair (u v : unit) : bool :=
-  negb (String.eqb (disp u) (disp v)) && negb (lone_family (disp u) =? 0)%N
-  && (lone_family (disp u) =? lone_family (disp v))%N.
-
 Definition real_units : list unit := filter (fun u => negb (is_unit_none u)) all_known_units.
 
 Definition groups_pred (u v : unit) : bool :=
-  known_pair u v || Bool.eqb (convertible u v) (same_group (disp u) (disp v)).
+  Bool.eqb (convertible u v) (same_group (disp u) (disp v)).
 
 Lemma groups_sweep : forallb (fun u => forallb (groups_pred u) real_units) real_units = true.
 Proof. vm_compute. reflexivity. Qed.
 
-Lemma groups : forall u v, In u real_units -> In v real_units -> known_pair u v = false ->
+(* since the fix of F15 there is no exception: two units convert iff CSS puts them in one group *)
+Lemma groups : forall u v, In u real_units -> In v real_units ->
   convertible u v = same_group (disp u) (disp v).
 Proof.
-  intros u v Hu Hv Hk.
+  intros u v Hu Hv.
   pose proof (sweep2 real_units real_units groups_pred groups_sweep u v Hu Hv) as H.
-  unfold groups_pred in H. rewrite Hk, orb_false_l in H. apply eqb_prop in H. exact H.
+  unfold groups_pred in H. apply eqb_prop in H. exact H.
 Qed.
 
-Lemma refuted_groups : exists u v, In u real_units /\ In v real_units /\ known_pair u v = true /\
-  convertible u v = true /\ same_group (disp u) (disp v) = false.
-Proof. exists (UK "Em"), (UK "Ex"). vm_compute. repeat split; auto 40. Qed.
+(* the former F15 pairs in particular *)
+Lemma lone_units_do_not_convert :
+  convertible (UK "Em") (UK "Ex") = false /\ convertible (UK "Em") (UK "Ch") = false
+  /\ convertible (UK "Vmin") (UK "Vmax") = false /\ convertible (UK "Percent") (UK "Fr") = false
+  /\ convertible (UK "Fr") (UK "Percent") = false.
+Proof. vm_compute. repeat split; reflexivity. Qed.
 
 (* every unit the CSS table knows is a unit of the code, and vice versa *)
 Lemma units_cover : forallb (fun u => is_known_unit (disp u)) real_units = true
